@@ -121,10 +121,11 @@ def rule_gzip_only(prog, fixture=False):
                       "zlib code %s does not raise an error: damaged or truncated data would be used" % lab)
     for fn in prog.fnby("write_decompressed_data", required=not fixture):
         # outer loop: while (zerr != Z_STREAM_END); every break inside it is guarded by Z_BUF_ERROR && got
-        loops = [n for n in fn.walk() if n.get("k") == "WhileStmt"]
+        loops = [n for n in fn.walk() if n.get("k") in ("WhileStmt", "DoStmt")]
         outer = None
         for lp in loops:
-            c = strip_all(lp["c"][lp["parts"]["cond"]])
+            # while (cond) body / do body while (cond): a do-loop's condition is its last child
+            c = strip_all(lp["c"][lp["parts"]["cond"]] if lp["k"] == "WhileStmt" else lp["c"][-1])
             if c.get("k") == "BinaryOperator" and c.get("op") == "!=" and 1 in (folded(c["c"][0]), folded(c["c"][1])):
                 outer = lp
         key = "%s::%s::loop-exit" % (fn.relfile(), fn.qn)
@@ -181,6 +182,27 @@ def rule_zlib_census(prog, fixture=False):
     return r
 
 
+def _input_remains(cmps):
+    """next != EOF  or  avail_in != 0 among the comparison facts"""
+    return any(rel == "!=" and -1 in (folded(l), folded(rr)) for l, rel, rr in cmps) or \
+        any(rel in ("!=", ">") and 0 in (folded(l), folded(rr)) and
+            any(x.get("k") == "MemberExpr" and x.get("n") == "avail_in" for e in (l, rr) for x in walk(e))
+            for l, rel, rr in cmps)
+
+
+def _true_only_with_input(t):
+    g = Guards(t)
+    rets = [m for m in t.walk() if m.get("k") == "ReturnStmt" and m.get("c")]
+    if not rets:
+        return False
+    for m in rets:
+        if folded(m["c"][0]) == 0:
+            continue
+        if not _input_remains(g.cmps(m) or []):
+            return False
+    return True
+
+
 def rule_all_members(prog, fixture=False):
     r = RuleResult("R-C10-4", "at the end of a gzip member the decompressor stops only if no input remains; "
                    "otherwise it resets the inflater and continues", floor=0 if fixture else 1)
@@ -208,10 +230,15 @@ def rule_all_members(prog, fixture=False):
             gh = g if holder is fn else Guards(holder)
             cs_reset = gh.cmps(rs) or []
             # (a) input remains at the reset: next != EOF  or  avail_in != 0
-            more = any(rel == "!=" and -1 in (folded(l), folded(rr)) for l, rel, rr in cs_reset) or \
-                any(rel in ("!=", ">") and 0 in (folded(l), folded(rr)) and
-                    any(x.get("k") == "MemberExpr" and x.get("n") == "avail_in" for e in (l, rr) for x in walk(e))
-                    for l, rel, rr in cs_reset)
+            more = _input_remains(cs_reset)
+            if not more:
+                # ... or a predicate helper said so: it returns true only where input was seen to remain
+                for atom, truth in (gh.truths(rs) or []):
+                    a = strip_all(atom)
+                    if truth and a is not None and a.get("k") == "CallExpr":
+                        ts = prog.call_targets(holder, a)
+                        if ts and all(_true_only_with_input(t) for t in ts):
+                            more = True
             # (b) a member has just ended: zerr == Z_STREAM_END holds at the reset / at the call of the helper
             at = rs if via is None else via
             at_end = any(rel == "==" and 1 in (folded(l), folded(rr)) for l, rel, rr in (g.cmps(at) or []))
